@@ -91,5 +91,18 @@ func (p *placeholder) Provides() []ast.Expr {
 // name without ".go" suffix to guarantee uniqueness of generated cff
 // functions.
 func TrimFilename(path string) string {
-	return strings.ReplaceAll(strings.TrimSuffix(filepath.Base(path), ".go"), "_", "")
+	name := strings.TrimSuffix(filepath.Base(path), ".go")
+	var b strings.Builder
+	for _, r := range name {
+		switch {
+		case r >= 'a' && r <= 'z', r >= 'A' && r <= 'Z', r >= '0' && r <= '9':
+			b.WriteRune(r)
+		default:
+			// Anything else is escaped: the result is used inside identifiers,
+			// and two files of a package ("a_b.go", "ab.go") must not map to
+			// the same name.
+			fmt.Fprintf(&b, "_%x_", r)
+		}
+	}
+	return b.String()
 }
